@@ -44,3 +44,30 @@ package limiter
 //@   ensures [tb_grant] old(limit.Tokens) >= 0 && result1 == nil && gfcType(flowControl) == "TokenBucket" ==> 0 <= result.Limit && result.Limit <= old(limit.Tokens) && setstatecalls == old(setstatecalls) && tbgranted[flowControl] - old(tbgranted[flowControl]) == (result.Accept ? result.Limit : 0) && forall g ref :: {tbgranted[g]} g != flowControl ==> tbgranted[g] == old(tbgranted[g])
 //@   ensures [inflight_once] old(limit.Tokens) >= 0 && result1 == nil && gfcType(flowControl) == "MaxRequestsInflight" ==> setstatecalls == old(setstatecalls) + 1 && tbgranted == old(tbgranted)
 //@   loop 0: invariant [tok] 0 <= token && token <= limit.Tokens && limit.Tokens == old(limit.Tokens) && !rs.Accept && rs.Limit == 0 && tbgranted == old(tbgranted) && setstatecalls == old(setstatecalls)
+
+//@ func clampNextQuota props C07
+//@   pure
+//@   requires [integral] exists kc int, kr int, kt int :: current == real(kc) && remaining == real(kr) && total == real(kt)
+//@   ensures [no_overcommit] total >= 1.0 && 0.0 <= current && remaining >= 0.0 ==> result - current <= remaining || result < max(1.0, total * 0.002) + 1.0
+//@   ensures [no_growth] total >= 1.0 && 0.0 <= current && remaining < 0.0 ==> result <= current || result < max(1.0, total * 0.002) + 1.0
+//@   ensures [range] total >= 1.0 ==> 1.0 <= result && result <= total
+//@   ensures [integral_result] exists k int :: result == real(k)
+
+//@ func calculateNextQuota props C07
+//@   modifies *
+//@   ensures [count_strategy] !defined(next) ==> result.LimitItemDetail.MaxRequestsInflight == old(upstreamTotal.LimitItemDetail.MaxRequestsInflight) && result.LimitItemDetail.TokenBucket == old(upstreamTotal.LimitItemDetail.TokenBucket)
+//@   ensures [inputs] defined(next) ==> total == real(getLimitQuota(upstreamTotal.LimitItemDetail, flowControlType)) && allocated == real(getLimitQuota(upstreamUsed.LimitItemDetail, flowControlType)) && current == real(getLimitQuota(flowControlConfig.LimitItemDetail, flowControlType)) && remaining == total - allocated   since "next = clampNextQuota("
+//@   ensures [range] defined(next) ==> (total >= 1.0 ==> 1.0 <= next && next <= total)   since "next = clampNextQuota("
+//@   ensures [no_overcommit] defined(next) ==> (total >= 1.0 && 0.0 <= current && current <= allocated && allocated <= total ==> next - current <= total - allocated || next < max(1.0, total * 0.002) + 1.0)   since "next = clampNextQuota("
+//@   ensures [no_growth] defined(next) ==> (total >= 1.0 && 0.0 <= current && allocated > total ==> next <= current || next < max(1.0, total * 0.002) + 1.0)   since "next = clampNextQuota("
+
+//@ func getLimitQuota props C07
+//@   pure
+//@   ensures [inflight] flowControlType == "MaxRequestsInflight" ==> result == (limit.MaxRequestsInflight == nil ? 0 : limit.MaxRequestsInflight.Max)
+//@   ensures [bucket] flowControlType == "TokenBucket" ==> result == (limit.TokenBucket == nil ? 0 : limit.TokenBucket.QPS)
+
+//@ func setFlowControlLimit props C07
+//@   requires [nonnil] limit != nil
+//@   modifies *
+//@   ensures [inflight] flowControlType == "MaxRequestsInflight" ==> limit.MaxRequestsInflight != nil && limit.MaxRequestsInflight.Max == int32(qps)
+//@   ensures [bucket] flowControlType == "TokenBucket" ==> limit.TokenBucket != nil && limit.TokenBucket.QPS == int32(qps) && limit.TokenBucket.Burst == int32(burst)
